@@ -126,7 +126,58 @@ func genStoreHistory(r *Rng, maxOps int) *storeHistory {
 			h.Ops = append(h.Ops, storeOp{Kind: "add", Sigs: []detection.Signature{s2}}, storeOp{Kind: "reopen"})
 		}
 	}
+	// the latest version written for each ID (deletes ignored: re-adding a deleted signature with one field
+	// changed is a history too)
+	last := map[string]detection.Signature{}
+	note := func(l []detection.Signature) {
+		for _, s := range l {
+			last[s.ID] = s
+		}
+	}
+	for _, op := range h.Ops {
+		note(op.Sigs)
+	}
 	for i := 0; i < n; i++ {
+		if len(last) > 0 && r.Chance(15) {
+			// an in-place update that changes ONE field and none of the index KEYS: the packed index
+			// values (score, tolerance) and the record still have to follow
+			var ids []string
+			for id := range last {
+				ids = append(ids, id)
+			}
+			sort.Strings(ids)
+			s1 := last[pick(r, ids)]
+			switch r.Intn(4) {
+			case 0, 1:
+				for _, t := range []float64{0, 0.125, 0.5, 1.5} {
+					if t != s1.EntropyTolerance && r.Chance(50) {
+						s1.EntropyTolerance = t
+						break
+					}
+				}
+			case 2:
+				s1.Severity = pick(r, []string{"HIGH", "LOW", "CRITICAL"})
+			case 3:
+				s1.IdentifyingFeatures.RequiredCalls = []string{pick(r, callPool)}
+			}
+			l := []detection.Signature{s1}
+			kind := "add"
+			if r.Chance(40) {
+				kind = "addmany"
+				if r.Bool() {
+					l = append(l, genStoreSig(r, h, hashes, fuzzies))
+				}
+			}
+			note(l)
+			h.Ops = append(h.Ops, storeOp{Kind: kind, Sigs: l})
+			if r.Chance(30) {
+				h.Ops = append(h.Ops, storeOp{Kind: "reopen"})
+			}
+			continue
+		}
+		if k := len(h.Ops); k > 0 {
+			note(h.Ops[k-1].Sigs)
+		}
 		switch c := r.Intn(100); {
 		case c < 40:
 			h.Ops = append(h.Ops, storeOp{Kind: "add", Sigs: []detection.Signature{genStoreSig(r, h, hashes, fuzzies)}})
